@@ -376,7 +376,7 @@ def run_program_case(hbin, case, workdir, cid="900000"):
     src = os.path.join(workdir, "p%s.go" % cid)
     open(src, "w").write(case["go"])
     salt = int(case.get("salt", 0))
-    hl = run_harness(hbin, ["compilefile", src, cid, str(case["w"]), str(salt)])
+    hl = run_harness(hbin, ["compilefile", src, cid, str(case["w"]), str(salt), str(case.get("proc", 0))])
     prog = "PROG %s w=%s fuel=10 steps=6000 salt=%d decls=%s body=%s" % (cid, case["w"], salt, case["decls"], case["body"])
     hl = [prog, "TAG %s corpus n=0 nin=%s nout=%s" % (cid, case.get("nin", 0), case.get("nout", 1))] + hl
     ol = run_oracle([l for l in hl if l.startswith("PROG") or l.startswith("IMPL ")])
@@ -564,7 +564,8 @@ def run(rep):
 
         t_phase["programs"] = time.monotonic()
         # ---- 4. the real CLI
-        ids = [cid for cid in sorted(cases, key=lambda x: int(x)) if cases[cid].impl is not None and int(cid) < 100000]
+        ids = [cid for cid in sorted(cases, key=lambda x: int(x)) if cases[cid].impl is not None and int(cid) < 100000
+               and "go-stmt" not in cases[cid].tags]   # -save-assembly writes processor 0 only; pairs are checked in-process
         pick = ids[:: max(1, len(ids) // (12 if thorough else 4))][: (12 if thorough else 4)]
         seeds = ["0", "s1:2000", "s2:150", str(rep.seed * 17 + 3)] + (["s4:2000", str(rep.seed * 31 + 7)] if thorough else [])
         for cid in pick:
@@ -676,7 +677,8 @@ def handle_case(c, src, corpus_case, twin, add_finding, stats, distinct):
                 stats["inconclusive"] += 1
     case = corpus_case or {"kind": "program", "w": c.meta.get("w"), "decls": c.meta.get("decls"),
                            "body": (c.prog or "").split(" body=", 1)[-1], "go": src,
-                           "salt": c.meta.get("salt", 0), "nin": c.meta.get("nin", 0), "nout": c.meta.get("nout", 1)}
+                           "salt": c.meta.get("salt", 0), "nin": c.meta.get("nin", 0), "nout": c.meta.get("nout", 1),
+                           "proc": 1 if "goroutine" in c.tags else 0}
     for kind in set(kinds):
         fk = stats.setdefault("failing_programs_by_kind", {})
         fk[kind + ("(corpus)" if corpus_case is not None else "")] = fk.get(kind + ("(corpus)" if corpus_case is not None else ""), 0) + 1
